@@ -234,6 +234,15 @@ def scale_inputs(tier):
         out.append(('long-version-nl', b'#diffx: encoding=utf-8, version=' +
                     x + b'\n'))
         out.append(('long-second-line', H + x))
+        nine = b'9' * n
+        out.append(('long-int-option', b'#diffx: encoding=utf-8, '
+                    b'version=1.0, z=' + nine + b'\n#.change:\n'))
+        out.append(('long-length', H + b'#.preamble: length=' + nine +
+                    b'\nabc\n'))
+        out.append(('long-negative-length', H + b'#.preamble: length=-' +
+                    nine + b'\nabc\n'))
+        out.append(('long-indent', H + b'#.preamble: indent=' + nine +
+                    b', length=4\nabc\n'))
         out.append(('long-second-header', H + b'#.change: z=' + x + b'\n'))
         out.append(('long-content-line', H + b'#.preamble: length=%d\n'
                     % (n + 1) + x + b'\n'))
